@@ -266,6 +266,10 @@ class Proposal:
         except struct_error:
             raise InvalidSyntax('Error parsing Proposal')
 
+        # the SPI of an AH / ESP SA is 4 octets long (RFC 7296 3.3.1): anything else cannot be installed in the kernel
+        if protocol_id in (Proposal.Protocol.AH, Proposal.Protocol.ESP) and spi_size != 4:
+            raise InvalidSyntax(f'Invalid SPI size ({spi_size}) for an AH/ESP proposal')
+
         if spi_size > 0:
             spi = data[4:4 + spi_size]
         else:
